@@ -147,6 +147,7 @@ def run_tasks(tasks, root, procs=None, use_cache=True):
     tmpd = tempfile.mkdtemp(prefix="pyvc_", dir=os.environ.get("PYVC_SCRATCH") or None)
     pending = list(order)
     running = {}      # pid -> (index, path, start)
+    retried = set()
     try:
         while pending or running:
             while pending and len(running) < procs:
@@ -166,7 +167,12 @@ def run_tasks(tasks, root, procs=None, use_cache=True):
                         with open(path) as f:
                             out[i] = json.load(f)
                     except Exception as e:      # noqa
-                        out[i] = {"task": getattr(tasks[i], "name", "?"), "status": "crash", "detail": "worker died without a result (%s)" % e, "obligations": []}
+                        # the worker was killed from outside (e.g. memory pressure): run the task once more before giving up
+                        if i not in retried:
+                            retried.add(i)
+                            pending.append(i)
+                        else:
+                            out[i] = {"task": getattr(tasks[i], "name", "?"), "status": "crash", "detail": "worker died twice without a result (%s)" % e, "obligations": []}
                 elif time.time() - t0 > limit:
                     try:
                         os.kill(pid, 9)
